@@ -264,6 +264,21 @@ def gen_name(rng):
   return 'ends-digit', rand_ident(rng, 1, 4) + rng.choice(string.digits) + rng.choice(['', '\n', '_2', '\u0661'])
 
 
+def keyword_variants():
+  """every keyword in every case variant that matters, bare and with invalid characters around it
+  (deterministic: part of every run, for both pick functions, batches and the engine stream)"""
+  return [w for v in bare_keyword_variants() for w in (v, ' ' + v, v + '!', '_' + v, '-' + v + ' ', '1' + v)]
+
+
+def bare_keyword_variants():
+  out = []
+  for kw in keyword.kwlist:
+    for v in (kw, kw.lower(), kw.upper(), kw.capitalize(), kw.swapcase()):
+      if v not in out:
+        out.append(v)
+  return out
+
+
 def alias(rng, s):
   """a variant of s that has the same upper-case form (case changes, dotless i / long s)"""
   out = []
@@ -470,6 +485,16 @@ def build_cases(ctx):
 
 
 def _build(ctx, ids, rng, out, seen, N, pick_case):
+  # every keyword x case variant x surrounding junk, through both functions, without and with a colliding name
+  kwv = keyword_variants()
+  for name in kwv:
+    for fn, key in ((ids.pick_col_ident, 'col'), (ids.pick_table_ident, 'table')):
+      pick_case(fn, key, name, [], 'keyword-variants')
+  for name in bare_keyword_variants():   # the bare variants once more, with the id they would get already taken
+    for fn, key in ((ids.pick_col_ident, 'col'), (ids.pick_table_ident, 'table')):
+      st, r0 = call(fn, name, avoid=set())
+      if st == 'ok' and isinstance(r0, str):
+        pick_case(fn, key, name, [r0.swapcase(), 'id'], 'keyword-variants')
   for _ in range(N):
     stream, name = gen_name(rng)
     fn = rng.choice([ids.pick_col_ident, ids.pick_col_ident, ids.pick_table_ident])
@@ -541,8 +566,10 @@ def _build(ctx, ids, rng, out, seen, N, pick_case):
     out['gen'].append(((avoid,), 'case_gen %s %s %s' % (tables_for([], avoid + [r]), strs(avoid), core.strlit(r)), r))
 
   # batches
-  for _ in range(ctx.n(250, 5000)):
-    idents, avoid = gen_batch(ctx)
+  kwv = keyword_variants()
+  kw_batches = [(kwv[i:i + 12], ['id']) for i in range(0, len(kwv), 12)]
+  for k in range(len(kw_batches) + ctx.n(250, 5000)):
+    idents, avoid = kw_batches[k] if k < len(kw_batches) else gen_batch(ctx)
     st, rs = call(ids.pick_col_ident_list, list(idents), avoid=set(avoid))
     w = {'fn': 'pick_col_ident_list', 'idents': idents, 'avoid': avoid}
     seen.extend(idents + avoid)
@@ -565,7 +592,7 @@ def correspond(ctx):
   monitors(ctx, seen)
   flat = [(key, c) for key in ('sanitize', 'suffix', 'gen', 'table', 'col', 'list') for c in cases[key]]
   bad = ctx.run_cases('ident', ['Grist.Model.Ident', 'GristGen.Kwlist_gen'], 'check_case kwlist',
-                      [c[1] for _key, c in flat], shard=ctx.n(150, 400))
+                      [c[1] for _key, c in flat], shard=ctx.n(250, 400))
   shown = {}
   for i in bad:
     key, c = flat[i]
@@ -573,6 +600,7 @@ def correspond(ctx):
     if shown[key] <= 3:
       ctx.broken('correspondence:model of %s differs from identifiers.py' % key,
                  'input %r -> implementation %r' % (c[0], c[2]))
+  ctx._c21_disagree = [flat[i] for i in bad]
   for key in cases:
     ctx.bump('compared:' + key, len(cases[key]))
 
@@ -580,10 +608,86 @@ def correspond(ctx):
 # ---------------------------------------------------------------------------------------------------
 # search: the property's oracle on the implementation
 
+def names_of(key, c):
+  """the requested names and avoid names of a disagreeing correspondence case, and the implementation's answer"""
+  inp, out = c[0], c[2]
+  names, avoid = [], []
+  if key in ('col', 'table'):
+    names, avoid = [inp['ident']], list(inp['avoid'])
+  elif key == 'list':
+    names, avoid = list(inp['idents']), list(inp['avoid'])
+  elif key == 'sanitize':
+    names = [inp[0]]
+  elif key == 'suffix':
+    names, avoid = [inp[0]], list(inp[1])
+  elif key == 'gen':
+    avoid = list(inp[0])
+  outs = out if isinstance(out, list) else [out]
+  return [n for n in names if isinstance(n, str)], avoid, [o for o in outs if isinstance(o, str)]
+
+
+def neighbours(name):
+  """case variants, prefixes/suffixes, stripped and re-wrapped forms of a name"""
+  core_ = ''.join(ch for ch in name if ch.isascii() and (ch.isalnum() or ch == '_')).lstrip('_')
+  base = [name, core_, core_[1:], core_[:-1], core_.rstrip(string.digits + '_')]
+  for p in ('c', 'T', 'C', 't'):
+    if core_[:1] == p:
+      base.append(core_[1:])
+  out = []
+  for b in base:
+    for v in (b, b.lower(), b.upper(), b.capitalize(), b.swapcase(), b[:1].lower() + b[1:], b[:1].upper() + b[1:]):
+      for w in (v, ' ' + v, v + '!', '_' + v, '1' + v):
+        if w not in out:
+          out.append(w)
+  for k in range(1, min(len(name), 6)):
+    out.extend([name[:k], name[k:]])
+  return out
+
+
+def focused_search(ctx):
+  """After a correspondence break: the property oracle on a neighbourhood of the disagreeing inputs (their case
+  variants, prefixes/suffixes, the implementation's answers fed back as requests and as existing names), through
+  pick_col_ident, pick_table_ident and pick_col_ident_list."""
+  dis = getattr(ctx, '_c21_disagree', None) or []
+  if not dis:
+    return
+  tried, found = 0, set()
+  seen = set()
+  for key, c in dis[:40]:
+    names, avoid, outs = names_of(key, c)
+    cands = []
+    for n in names + outs:
+      cands.extend(neighbours(n))
+    avoids = [[], avoid[:8], [o.swapcase() for o in outs][:4], [o.lower() for o in outs][:4] + [n for n in names][:4]]
+    for cand in cands:
+      for av in avoids:
+        ws = [{'fn': 'pick_col_ident', 'ident': cand, 'avoid': av},
+              {'fn': 'pick_table_ident', 'ident': cand, 'avoid': av},
+              {'fn': 'pick_col_ident_list', 'idents': [cand, cand.swapcase(), cand], 'avoid': av}]
+        for w in ws:
+          k = repr(sorted(w.items()))
+          if k in seen:
+            continue
+          seen.add(k)
+          tried += 1
+          bad = oracle(w)
+          ctx.count(('focused', k), nontrivial=True, kind='focused-search')
+          if bad and (bad[0], w['fn']) not in found:
+            found.add((bad[0], w['fn']))
+            small = shrink(w, bad[0])
+            ctx.violation(bad[0], (oracle(small) or bad)[1], small)
+          if len(ctx.violations) > 20 or TIMEOUTS[0] >= 2 * MAX_TIMEOUTS:
+            ctx.log('focused search around %d disagreeing inputs: %d calls, %d failure modes' %
+                    (len(dis), tried, len(found)))
+            return
+  ctx.log('focused search around %d disagreeing inputs: %d calls, %d failure modes' % (len(dis), tried, len(found)))
+
+
 def search(ctx):
   cases = getattr(ctx, '_c21_cases', None)
   if cases is None:
     cases, _seen = build_cases(ctx)
+  focused_search(ctx)
   for key in ('col', 'table', 'list'):
     for w, _coq, _r in cases[key]:
       bad = oracle(w)
@@ -665,6 +769,9 @@ def run_history(hist):
   for a in hist:
     try:
       gristenv.apply(e, [a])
+    except SyntaxError as ex:
+      # the generated module (class <tableId>: ... <colId> = ...) does not compile: an id is not a usable identifier
+      return ('generated-code-syntax-error', 'action %r raised %s: %s' % (a, type(ex).__name__, ex))
     except Exception:      # pylint: disable=broad-except
       gristenv.clean(e)
       continue
@@ -749,11 +856,29 @@ def engine_oracle(w):
   return bad
 
 
+def keyword_histories(ctx):
+  """AddTable / RenameTable / AddColumn / RenameColumn with every keyword variant as the requested name"""
+  names = bare_keyword_variants()
+  if ctx.tier == 'thorough':
+    names = keyword_variants()
+  out = []
+  for i in range(0, len(names), 8):
+    chunk = names[i:i + 8]
+    h = [['AddTable', n, [{'id': n, 'type': 'Text', 'isFormula': False}]] for n in chunk[:4]]
+    h += [['AddEmptyTable', None]]
+    for n in chunk[4:]:
+      h += [['RenameTable', ('$T', len(h)), n], ['AddColumn', ('$T', 0), n, {'type': 'Text'}],
+            ['RenameColumn', ('$T', 0), ('$C', 0), n]]
+    out.append(h)
+  return out
+
+
 def engine_search(ctx):
+  hists = keyword_histories(ctx)
   n = ctx.n(12, 300)
-  for _ in range(n):
+  for k in range(len(hists) + n):
     hist = []
-    st, msg = call(resolve_and_run, gen_history(ctx), hist, _limit=15.0)
+    st, msg = call(resolve_and_run, hists[k] if k < len(hists) else gen_history(ctx), hist, _limit=15.0)
     if st != 'ok':
       ctx.log('engine history could not be generated: %s' % (msg,))
       if st == 'timeout':
